@@ -134,6 +134,14 @@ func run(spec Scenario) outcome {
 		}
 	}
 
+	if spec.Born {
+		if spec.Cancel.Kind == "deadline" {
+			for sc.ctx.Err() == nil {
+				time.Sleep(200 * time.Microsecond)
+			}
+		}
+		sc.doCancel("born")
+	}
 	sc.tl = tasklane.New(sc.ctx, spec.LaneSize, spec.QueueSize)
 	sc.tl.SetTimeout(time.Duration(spec.TimeoutMs) * time.Millisecond)
 	if spec.TimeoutUs > 0 {
